@@ -436,6 +436,16 @@ func genSignedStructs(g *G, count int) {
 			g.emit("readRI", hx(b))
 		}
 		if i < 2 || !g.quick() && i < 20 {
+			// offline-keys fixtures: the values returned with an error have the flag set but no block yet
+			oid := g.newIdentity(7, 4, false, nil)
+			otr := g.newSigner(g.R.pick(7, 1, 2))
+			ob, osg := g.encLS2Body(oid, otr, "")
+			g.emitCuts("readLS2", cat(ob, osg.sign(cat([]byte{3}, ob))), "ls2-offline-cuts")
+			omb := cat(oid.bytes, u32(g.ts()), u16(600), u16(1), g.encOffSig(oid.sg, otr, ""), []byte{0, 0, 3})
+			for j := 0; j < 3; j++ {
+				omb = cat(omb, r.bytes(32), []byte{3}, u32(g.ts()), []byte{1}, g.optionsBytes())
+			}
+			g.emitCuts("readMeta", cat(omb, otr.sign(cat([]byte{7}, omb))), "meta-offline-cuts")
 			// every truncation point of one well-formed encoding per structure
 			g.emitCuts("readRI", cat(rb, rid.sg.sign(rb)), "ri-cuts")
 			g.emitCuts("readLS2", cat(body, make([]byte, 64)), "ls2-cuts")
@@ -472,7 +482,14 @@ func (g *G) emitCuts(op string, b []byte, tag string) {
 	for k := len(b) - 70; k < len(b); k++ {
 		add(k)
 	}
+	// around the identity boundary and the hard-coded minimum sizes of the composite parsers
 	for k := 380; k < 400; k++ {
+		add(k)
+	}
+	for k := 490; k < 524; k++ {
+		add(k)
+	}
+	for k := 100; k < 116; k++ {
 		add(k)
 	}
 }
